@@ -19,6 +19,21 @@ CHECKS['C09'] = dict(
    note='Trusted: Lean kernel; axioms propext, Classical.choice, Quot.sound; tools/gen_tables.py; conversion of the returned float to hundredths (checked within 1e-6).',
    technique='Lean 4 proof (bisection invariant over monotone exact points) + exhaustive correspondence',
    ref='7/C09')
+CHECKS['C02'] = dict(
+   text='Machine-checked proofs about the Lean transcription of highjump.py (HJ.step): a refused call leaves the WHOLE state unchanged (all states); the log records exactly the accepted calls; add only while scheduled / before the first bar (reachable states); the bar only rises outside a jump-off and never in finished/drawn; an accepted trial implies the athlete was not eliminated, not dismissed and had attempts left; the state never moves backwards and nothing is accepted once finished or drawn (every reachable state, by the invariants DrawnInv and StartedInv proved over all call sequences); a refusal is the rule-violation error. That the real object equals the transcription is the correspondence: every call (legal or not) in every state of an exhaustive breadth-first exploration and of seeded random walks, snapshot of all public attributes compared after each call. The card-level reading of the rules (three consecutive failures, jump-off participants, decided against) is judged on the implementation by an independent referee written from the property text.',
+   note='Trusted: Lean kernel; axioms propext, Quot.sound (Classical.choice where simp uses it); the snapshot function and the referee in tools/hj_common.py; athletes registered with a bib only. Partial: the equivalence "accepted iff the card-level rules allow it" is not a theorem; it is decided by exhaustive bounded exploration + walks against the referee.',
+   technique='Lean 4 proof (invariants by induction over all call sequences) over a transcription tied by exhaustive differential exploration',
+   ref='7/C02')
+CHECKS['C03'] = dict(
+   text='Machine-checked proofs: the countback key order is a strict total order; the ranking algorithm (stable insertion sort + shared-place numbering) gives every entry the place 1 + number of strictly better keys, so equal keys share a place, places form a competition ranking and do not depend on the previous order; the model\'s sort on bibs is that key sort; a clearance never lowers the best and the best is always a height cleared. The placing clause on reachable terminal states (places = places computed from the cards, jump-off survivor first, other participants ahead of non-participants, no standing tie in finished) is decided on the implementation by the referee over an exhaustive enumeration of small complete competitions plus structured samples with multi-round jump-offs, and the final states are compared with the Lean model.',
+   note='Trusted: as C02. Partial: C03_statement (places of reachable terminal states equal the card-level referee) is stated, not proved.',
+   technique='Lean 4 proof of the ranking algorithm + exhaustive enumeration of complete competitions against a card-level referee',
+   ref='7/C03')
+CHECKS['C08'] = dict(
+   text='Machine-checked proofs for every history: replaying the recorded action log from the empty competition reproduces the whole state; the log is exactly the accepted calls; refused calls are noise. The card export/import round trip and the independence from per-height interleavings are decided on the implementation (all interleavings when few, seeded samples otherwise) and replayed on the Lean model.',
+   note='Trusted: as C02. Partial: C08_interleaving_statement and the matrix round trip are stated / checked by enumeration, not proved.',
+   technique='Lean 4 proof (log replay by induction + atomicity) + enumeration of interleavings and card round trips',
+   ref='7/C08')
 NOT_YET = {}
 def main():
     props = [json.loads(l) for l in open(os.path.join(HERE, 'properties.jsonl'))]
